@@ -8,7 +8,7 @@ ID = "C07"
 LEAN_MODULES = ["LexVerif.Props.C07", "LexVerif.Props.RoundNE", "LexVerif.Props.Literals.WriteFloatRadix", "LexVerif.Props.Literals.WriteFloatShared", "LexVerif.Props.Literals.WriteFloatWrite"]
 GEN = ["literals"]
 TRUSTED = TRUSTED_BASE + [
-    "write-float/src/radix.rs uses hardware f64 arithmetic (*, /, %, floor); it is not modelled in Lean. Each output is evaluated EXACTLY by the Lean oracle "
+    "write-float/src/radix.rs uses hardware f64 arithmetic (*, /, %, floor). Only its INTEGER path is modelled in Lean (Model/WriteRadixInt.lean: floats with an integral value below 2^53 / 2^24, default digit options; model column of `wf` on those ops) and proved: under the explicit IEEE assumption IeeeExact (`%`, `-`, `/` exact on integers below the mantissa limit when the result is such an integer) the digits written are toDigits r n, positional and scientific (radix_integer_exact*). The fraction loop is not modelled. Each output is evaluated EXACTLY by the Lean oracle "
     "(grammar + big rationals) and its distance to the float is measured in ulps; the ulp bound is therefore established by measurement on the stream, not by proof",
 ]
 RULE = ("29 generic radices x {f32,f64} x G-bits (every binade min/max/half/random, subnormals, integers below 2^53/2^24 incl. r^k-1, r^k, r^k+1 and carry chains "
@@ -16,10 +16,10 @@ RULE = ("29 generic radices x {f32,f64} x G-bits (every binade min/max/half/rand
         "and one exponent (oracle grammar accepts), implementation parser accepts it in the same format, exact distance to the float below 2048/256 ulp, integers exact. "
         "non-trivial = finite non-zero; distinct = distinct ops")
 TECHNIQUE = "Lean 4 oracle theorems (roundNE/valQ; exactness implies round trip) + exact rational evaluation of each generic-radix output by the Lean driver, measuring ulp error; re-parse correspondence"
-LEVEL_TEXT = ("Proved in Lean: the oracle used to measure the error (roundNE nearest/monotone; exact values of floats). The generic-radix writer itself (floating-point digit generation) is NOT "
+LEVEL_TEXT = ("Proved in Lean: the oracle used to measure the error (roundNE nearest/monotone; exact values of floats). The integer clause is a theorem about the Lean model of the integer path of radix.rs (radix_integer_exact, under the stated IEEE exactness assumption; model tied by the wf correspondence on integral floats). The fractional digit generation is NOT "
               "modelled or proved; the three clauses (well-formed, < 2048/256 ulp, integers exact) are measured exactly on every output of the stream. This property is claimed at proof level only for the "
               "oracle; for the writer it is exploration with an exact judge, and is labelled partial.")
-LEVEL_NOTE = "Trusted: Lean kernel (oracle theorems); rustc; hardware IEEE arithmetic; differential harness and generators. No Lean model of radix.rs."
+LEVEL_NOTE = "Trusted: Lean kernel (oracle theorems); rustc; hardware IEEE arithmetic; differential harness and generators. Lean model of the integer path of radix.rs only."
 
 GENERIC = [r for r in range(3, 37) if r not in (4, 8, 10, 16, 32)]
 
